@@ -29,6 +29,8 @@ pub struct DiffCfg<'a> {
     pub static_known: &'a (dyn Fn(&Node) -> Option<&'static str> + Sync),
     /// spelling of the printed pattern (None = plain)
     pub style: Option<&'a crate::ast::Style>,
+    /// run the reference in its bug-compatible F1 mode (for patterns of the F1 class)
+    pub f1_compat: bool,
 }
 
 pub fn default_exclude(p: &Node) -> Option<&'static str> {
@@ -36,8 +38,10 @@ pub fn default_exclude(p: &Node) -> Option<&'static str> {
         Some("ref-to-missing-group")
     } else if !p.refs_closed() {
         Some("ref-not-closed")
-    } else if p.has_f1() {
-        Some("class-F1")
+    } else if p.has_f1() && !p.f1_loops_all_hard() {
+        // finding F1 with an easy loop body: whether the loop runs in the VM (F1 behaviour) or in
+        // a delegate (reference behaviour) depends on the VM/automata split - no expectation
+        Some("class-F1 (easy loop body)")
     } else if p.has_bare_backref_cond() {
         Some("bare-backref-condition")
     } else {
@@ -69,6 +73,10 @@ pub fn show_out(o: &Out) -> String {
 pub fn run(ctx: &Ctx, cfg: &DiffCfg<'_>, patterns: &[Node], texts: &[String]) -> Acc {
     let fj_listed = ctx.known.listed(cfg.prop, "FJ");
     par_run(patterns, true, cfg.step_cap, |_, p, acc| {
+        // F1-class patterns whose empty-capable loops all have hard bodies are certainly run by
+        // the VM: they are checked against the bug-compatible expectation of the known finding
+        let f1 = cfg.f1_compat || p.has_f1();
+        refm::F1_COMPAT.with(|c| c.set(f1));
         if let Some(why) = (cfg.exclude)(p) {
             acc.count(&format!("excluded:{}", why));
             return;
@@ -98,6 +106,9 @@ pub fn run(ctx: &Ctx, cfg: &DiffCfg<'_>, patterns: &[Node], texts: &[String]) ->
             Route::Vm { .. } => "route:vm",
             Route::Unknown => "route:unknown",
         });
+        if f1 {
+            acc.count("F1-class patterns checked against the bug-compatible expectation");
+        }
         let statically_known = (cfg.static_known)(p).filter(|id| ctx.known.listed(cfg.prop, id));
         // hook-free fallback for finding FJ (DESIGN.md §8): without the aux-stack pairing signature
         // the class is static - a conditional somewhere below / next to a committing region
@@ -110,6 +121,10 @@ pub fn run(ctx: &Ctx, cfg: &DiffCfg<'_>, patterns: &[Node], texts: &[String]) ->
         let (mut cond_true, mut cond_false) = (false, false);
         let mut cap_hits = 0;
         for t in texts {
+            if over_budget() {
+                acc.count("work-items-skipped:time-budget-exhausted");
+                return;
+            }
             for from in gen::offsets(t) {
                 acc.evals += 1;
                 let (want, _steps) = refm::search(&r, ng, t, from, false, cfg.ref_budget);
